@@ -35,6 +35,14 @@ class NS:
     def raw(self, name):
         return object.__getattribute__(self, "_d")[name]
 
+    def loop_index(self, ordinal):
+        """the (symbolic) iteration index of the enclosing cut loop with that ordinal, for invariants of nested loops"""
+        ip = object.__getattribute__(self, "_ip")
+        for lp in reversed(ip.c.loop_stack):
+            if lp["key"][1] == ordinal and "k" in lp:
+                return lp["k"]
+        raise AttributeError(f"no enclosing cut loop {ordinal}")
+
 
 class PObjView:
     def __init__(self, ip, o):
@@ -434,6 +442,7 @@ def cut_loop(ip, key, assigned, guard, bind, body, extra=None, lc=None):
         o.fields[field] = havoc_like(ip, o.fields.get(field), vt.get("self." + field), field)
     k = c.fresh("k", I)
     c.assume(k >= 0)
+    lp["k"] = k
     for nm, f in inv_clauses(k):
         c.assume(f)
     if lc is not None and lc.axioms is not None:
